@@ -4,7 +4,8 @@
    (Peer._main -> replace_restart: the whole cache is queued again).  Operations issued while down
    are ordinary operations between Drop and Establish.  The first update generator of a session is
    run without its withdraws (include_withdraw = False in Peer._main), which the model reproduces
-   (`fresh`).  The End-of-RIB markers are session-level and are not part of these theorems. *)
+   (`fresh`).  The End-of-RIB markers are modelled on top (esys: the per-session flag of Peer._main and the rule of
+   _send_eor_messages); their placement on the wire is checked by the wire-level oracle of the harness. *)
 From Coq Require Import ZArith Bool List.
 From ExaV Require Import lib.Amap model.Model_Rib proofs.Proofs_Rib.
 Import ListNotations.
@@ -36,6 +37,20 @@ Theorem C11_drop_safe : forall s, Inv s ->
   Inv {| r := reset_rib (r s); peer := []; intended := intended s; up := false; fresh := false |}.
 Proof. exact Inv_drop. Qed.
 
+(* End-of-RIB: when the markers of a session go out (Peer._send_eor_messages: no generator live and the
+   per-session flag still set), every route for which nothing is queued is already at the peer with the
+   reported value - the complete table as it stood was sent first *)
+Theorem C11_eor_after_table : forall ops s k,
+  In s (eor_log (erun ops (esys0 true))) -> quiet (r s) k ->
+  aget Z.eqb k (peer s) = option_map rval (aget Z.eqb k (seen (r s))).
+Proof. exact eor_after_table. Qed.
+
+(* ... and they go out at most once per establishment *)
+Theorem C11_eor_once_per_session : forall ops es, eor_due es = false ->
+  forallb (fun o => match o with Establish => false | _ => true end) ops = true ->
+  eor_log (erun ops es) = eor_log es.
+Proof. exact eor_once_per_session. Qed.
+
 (* non-vacuity: announce, half-sent batch, drop, withdraw while down, establish, drain *)
 Example C11_example :
   let a := {| ridx := 1; rfam := 0; rattr := 10; rnh := 5 |} in
@@ -44,7 +59,16 @@ Example C11_example :
   up s = true /\ drained (r s) /\ peer s = [(2, (10, 5))].
 Proof. vm_compute. repeat split. Qed.
 
+Example C11_eor_example :
+  let a := {| ridx := 1; rfam := 0; rattr := 10; rnh := 5 |} in
+  let b := {| ridx := 2; rfam := 0; rattr := 10; rnh := 5 |} in
+  let es := erun [Ann a; Ann b; Start; Emit; Drop; Wd a; Establish; Start; Emit; Emit] (esys0 true) in
+  length (eor_log es) = 1%nat /\ map peer (eor_log es) = [[(2, (10, 5))]].
+Proof. vm_compute. split; reflexivity. Qed.
+
 Print Assumptions C11_resync.
 Print Assumptions C11_withdrawn_while_down_not_readvertised.
 Print Assumptions C11_establish_restores.
 Print Assumptions C11_drop_safe.
+Print Assumptions C11_eor_after_table.
+Print Assumptions C11_eor_once_per_session.
